@@ -47,6 +47,10 @@ func (core *JApiCore) buildUserTypes() *jerr.JApiError {
 				core.userTypes.Set(k, jschema.New(k, v.BodyCoords.Read()))
 			}
 		case notation.SchemaNotationRegex:
+			if !v.BodyCoords.IsSet() {
+				// A type without a body is reported when the catalog is built.
+				return
+			}
 			var oo []regex.Option
 			if core.useFixedSeedForRegex {
 				oo = append(oo, regex.WithGeneratorSeed(0))
